@@ -17,15 +17,34 @@ impl SimulationBoundary {
         periodic: bool,
         dimensionality: Dimensionality,
     ) -> Self {
+        // The extent of the integer grid is derived from the original simulation volume: it
+        // must strictly contain the (closed) box, all periodic images of the generators and
+        // their mirror images through the walls of the initial cell, _including_ the end
+        // points (generators may lie exactly on the boundary of the simulation volume).
+        // Without periodic boundaries that is [anchor - width, anchor + 2 * width], we use
+        // [anchor - 1.5 * width, anchor + 2.5 * width). With periodic boundaries the initial
+        // cell is [anchor - width, anchor + 2 * width] and the mirror images reach
+        // [anchor - 3 * width, anchor + 4 * width], we use
+        // [anchor - 3.5 * width, anchor + 4.5 * width). The extent is a power of two times
+        // the width, so that coordinates that are dyadic fractions of the width (e.g. regular
+        // grids) are mapped onto the integer grid without rounding.
+        let mut grid_anchor = anchor - 1.5 * width;
+        let mut grid_width = 4. * width;
         if periodic {
             anchor.x -= width.x;
+            grid_anchor.x = anchor.x - 2.5 * width.x;
+            grid_width.x = 8. * width.x;
             width.x *= 3.;
             if let Dimensionality::TwoD | Dimensionality::ThreeD = dimensionality {
                 anchor.y -= width.y;
+                grid_anchor.y = anchor.y - 2.5 * width.y;
+                grid_width.y = 8. * width.y;
                 width.y *= 3.;
             };
             if let Dimensionality::ThreeD = dimensionality {
                 anchor.z -= width.z;
+                grid_anchor.z = anchor.z - 2.5 * width.z;
+                grid_width.z = 8. * width.z;
                 width.z *= 3.;
             }
         }
@@ -38,29 +57,24 @@ impl SimulationBoundary {
             HalfSpace::new(DVec3::NEG_Z, anchor + width, None, None),
         ];
 
-        // The integer grid must strictly contain the (closed) box and the mirror images
-        // of all generators through its walls, i.e. [anchor - width, anchor + 2 * width],
-        // _including_ both end points (generators may lie exactly on the boundary of the
-        // simulation volume). Use [anchor - 1.5 * width, anchor + 2.5 * width).
-        //
         // The exact in-sphere predicate is evaluated on the integer coordinates, so all
         // active axes must be rescaled by the _same_ factor (an anisotropic rescaling turns
         // circumspheres into ellipsoids and makes the exact decisions inconsistent with the
         // geometry for non-cubic simulation volumes). The rescaling of the unused axes of
         // lower dimensional tessellations does not influence the predicate.
         let max_width = match dimensionality {
-            Dimensionality::OneD => width.x,
-            Dimensionality::TwoD => width.x.max(width.y),
-            Dimensionality::ThreeD => width.max_element(),
+            Dimensionality::OneD => grid_width.x,
+            Dimensionality::TwoD => grid_width.x.max(grid_width.y),
+            Dimensionality::ThreeD => grid_width.max_element(),
         };
         let scale_width = match dimensionality {
-            Dimensionality::OneD => DVec3::new(max_width, width.y, width.z),
-            Dimensionality::TwoD => DVec3::new(max_width, max_width, width.z),
+            Dimensionality::OneD => DVec3::new(max_width, grid_width.y, grid_width.z),
+            Dimensionality::TwoD => DVec3::new(max_width, max_width, grid_width.z),
             Dimensionality::ThreeD => DVec3::splat(max_width),
         };
         Self {
-            anchor: anchor - 1.5 * width,
-            inverse_width: 1. / (4. * scale_width),
+            anchor: grid_anchor,
+            inverse_width: 1. / scale_width,
             dimensionality,
             clipping_planes,
         }
